@@ -365,6 +365,8 @@ def generate():
         lines.append("Definition src_%s : fundef := {| fparams := [%s]; fbody :=\n  %s |}." % (n, "; ".join(cstring(p) for p in r["params"]), r["body"]))
         part.append("(%s, [%s])" % (cstring(n), "; ".join(cstring(c) for c in ext)))
     lines.append("Definition partial_entries : list (string * list string) := [%s]." % "; ".join(part))
+    lines.append("(* the same bodies by name (the correspondence harness looks them up here, so that it builds whatever the tree looks like) *)")
+    lines.append("Definition entry_bodies : list (string * fundef) := [%s]." % "; ".join("(%s, src_%s)" % (x.split(",")[0][1:], x.split(",")[0][2:-1]) for x in part))
     return "\n".join(lines) + "\n"
 
 
